@@ -63,11 +63,18 @@ Definition number_value (n : number) : Q :=
   Qmake (if n_neg n then - m else m) (Z.to_pos (10 ^ Z.of_nat (n_exp n))).
 
 (* the exponent fits Go's int (the library parses it with ParseInt) *)
-Definition exp_fits (u : numeral) : bool :=
+Definition exp_in_int (u : numeral) : bool :=
   match u_exp u with
   | None => true
   | Some (_, _, ed) => N.leb (dec ed) max_int
   end.
+(* the library can represent the number: the exponent fits Go's int and (setExp, fix dbc9afe)
+   it does not add more than max_exponent_zeros (10000) zeros to the written digits:
+   e <= 10000 + (fraction digits written)  and  -e <= 10000 + (integer digits written) *)
+Definition exp_fits (u : numeral) : bool :=
+  (exp_in_int u &&
+   Z.leb (u_expval u) (max_exponent_zeros + Z.of_nat (length (u_fdigits u))) &&
+   Z.leb (- u_expval u) (max_exponent_zeros + Z.of_nat (length (u_ip u))))%bool.
 (* the one RFC shape the scanner refuses (known finding C10-zero-int-exponent):
    integer part "0" followed directly by an exponent *)
 Definition zero_int_then_exp (u : numeral) : bool :=
